@@ -1,4 +1,5 @@
 #![no_main]
+#![feature(panic_can_unwind)]
 //! C08: coverage-guided arbitrary bytes into parse_float under AddressSanitizer. A clean panic is allowed (the
 //! documentation promises "returns a float or panics cleanly"): the libFuzzer panic hook is replaced by a silent one
 //! and the call is wrapped in catch_unwind, so that only a sanitizer report or a signal ends the process.
@@ -9,7 +10,15 @@ static HOOK: Once = Once::new();
 
 // input layout: [selector][exponent: 4 bytes LE][split: 2 bytes LE][integer bytes ++ fraction bytes]
 fuzz_target!(|data: &[u8]| {
-    HOOK.call_once(|| std::panic::set_hook(Box::new(|_| {})));
+    // unwinding panics are silent (and caught below); a panic that cannot unwind - the standard library's checks of unsafe
+    // preconditions ("unsafe precondition(s) violated: slice::get_unchecked requires ...") abort the process - says what it is
+    HOOK.call_once(|| {
+        std::panic::set_hook(Box::new(|info| {
+            if !info.can_unwind() {
+                eprintln!("NON-UNWINDING PANIC: {}", info);
+            }
+        }))
+    });
     if data.len() < 7 {
         return;
     }
